@@ -8,7 +8,7 @@
    (unique or not) over plain columns; named foreign keys (single- or multi-column, possibly
    self-referential, with ON UPDATE / ON DELETE / DEFERRABLE / INITIALLY options in any casing).  Names are interned as N.
    Outside, and what the code does with it on SQLite (each confirmed on the real code; the harness decorates schemas with the
-   first two kinds and the comparison must be unaffected):
+   first two kinds and with collations, and the comparison must be unaffected):
    - CHECK constraints: SQLAlchemy reflects them, autogenerate has no comparator for them: a CHECK that is added, removed or
      changed is never reported; it only travels inline inside CreateTableOp.  C06 is silent about them (no operation mentions
      them, database and model may differ in them for ever), C07 does not list them.
@@ -16,6 +16,8 @@
      reflecting ("Skipped unsupported reflection of expression-based index"), and DefaultImpl._skip_functional_indexes drops a
      metadata expression index whose name is not among the reflected ones (always, then) with a warning: they are invisible on both
      sides, never created (not even for a new table), dropped or altered by autogenerate, never shown to the filters.
+   - string collations (String(20, collation=NOCASE)): rendered into the DDL, not reflected by SQLite; _column_args_match compares
+     the trailing type tokens only when both sides have as many, so a collation is never reported.
    - table / column comments: not a SQLite feature (dialect.supports_comments is False, the comparators return at once).
    - identity columns; foreign key MATCH.
    Unnamed unique constraints (t_uuqs) are modelled for the correspondence (the unnamed_metadata_uniques / conn_uniques_by_sig
